@@ -394,7 +394,19 @@ def order_is_fixed():
     return all(o == orders[0] for o in orders)
 
 
+def c19(run):
+    from vcheck import build_cli
+    run.assumptions += ["the binary under test is built from /repo's working tree into .build/cli (unhooked)", "abstract line contents are instantiated by fixed strings in harness/src/cli.rs",
+                        "output files are written into fresh scratch directories under .build (the binary asks before overwriting)"]
+    binpath = build_cli()
+    mc_job(run, "MC_Cli", "mc/MC_Cli.tla", "mc/MC_Cli.cfg", "M: ReadRsca(WriteRsca(p)) = p exactly for the well-formed projects (all projects of <= 2 groups), alias round trip")
+    res = run_tlc("GEN_Cli", "gen/GEN_Cli.tla", "gen/GEN_Cli_%s.cfg" % run.tier, env=dict(run.known_env(), VERIF_ASCA_BIN=binpath), consumer=[HARNESS, "replay", "C19"], timeout=6000, workers=4)
+    run.add_tlc("GEN_Cli", res, "S->I: every sequence of <= 5 rule-file lines / alias-file lines (sampled by the seed in the quick tier) and <= 3 word-file lines with what Cli.tla's readers make of it; "
+                                "the real binary's conv asca, run -o and conv json round trip are compared with it and with asca::run")
+
+
 PROPS = {
+    "C19": (c19, "model_checking"),
     "C01": (c01, "model_checking"),
     "C09": (c09, "model_checking"),
     "C17": (c17, "fault_enumeration"),
